@@ -239,8 +239,8 @@ class Driver:
               "ran": n_ran > 0, "req": 0, "jl": 0, "jsrc": [1, 0], "lin": False}
         return ev, self._body_ok(p, n0, n_ran)
 
-    def linearize(self, c, za, mode, ex):
-        p, inp = self._call_inputs(c, za)
+    def linearize(self, c, za, mode, ex, xi=None):
+        p, inp = self._call_inputs(c, za, xi)
         n0, m0 = len(self.d.run_log), len(self.d.lin_log)
         jac = self.d.linearize(inp, compute_all_jacobians=(mode == "all"), execute=ex)
         n_ran = len(self.d.run_log) - n0
@@ -296,6 +296,8 @@ class Driver:
             return self.execute("lit", "omit", xi=args[0])
         if action == "Linearize":
             return self.linearize(args[0], args[1], args[2], args[3])
+        if action == "LinearizeLit":
+            return self.linearize("lit", "omit", "all", True, xi=args[0])
         if action == "MutateCell":
             return self.mutate(args[0], args[1]), None
         if action == "SetDiff":
